@@ -408,6 +408,63 @@ def harness_transcoder():
     return T
 
 
+def run_harness_conflict(case):
+    """A transcoder test harness whose first close() is refused by a merge conflict (two instances of one version that differ);
+    the offending instance is removed from harness.events and close() is called again."""
+    from edxml.ontology import DataType, EventProperty
+    from edxml.error import EDXMLMergeConflictError
+    from edxml.transcode.object import ObjectTranscoderTestHarness, ObjectTranscoder
+    logging.disable(logging.CRITICAL)
+
+    class T(ObjectTranscoder):
+        TYPES = ['ev']
+        TYPE_MAP = {'rec': 'ev'}
+        TYPE_PROPERTIES = {'ev': {'id': 'ot.string', 'tag': 'ot.string', 'v': 'ot.seq'}}
+        PROPERTY_MAP = {'ev': {'id': 'id', 'tag': 'tag', 'v': 'v'}}
+        TYPE_HASHED_PROPERTIES = {'ev': ['id']}
+        TYPE_PROPERTY_MERGE_STRATEGIES = {'ev': {'tag': EventProperty.MERGE_ADD, 'v': EventProperty.MERGE_MAX}}
+        TYPE_MULTI_VALUED_PROPERTIES = {'ev': ['tag']}
+        TYPE_VERSIONS = {'ev': 'v'}
+
+        def create_object_types(self, ontology):
+            ontology.create_object_type('ot.string')
+            ontology.create_object_type('ot.seq', data_type=DataType.sequence().get())
+    out = {}
+    try:
+        h = ObjectTranscoderTestHarness(T(), record_selector='type')
+        for rec in case['records']:
+            h.process_object(dict(rec, type='rec'), close=False)
+        try:
+            h.close()
+            out['first'] = 'accepted'
+        except EDXMLMergeConflictError:
+            out['first'] = 'conflict'
+        for e in [e for e in h.events if e['tag'] == {case['offender']}]:
+            h.events.remove(e)
+        try:
+            h.close()
+            out['second'] = 'accepted'
+        except Exception as ex:
+            out['second'] = 'raised:' + type(ex).__name__
+        out['events'] = sorted([e.get_any('id'), sorted(e['tag']), sorted(e['v'])] for e in h.events)
+    except Exception as ex:
+        out['error'] = type(ex).__name__
+    return out
+
+
+def gen_harness_conflict(rng):
+    recs = []
+    for name in rng.sample(['a', 'b', 'c'], rng.randint(1, 2)):
+        # instances of one logical event under different versions: they merge
+        for v in rng.sample([1, 2, 3], rng.randint(1, 3)):
+            recs.append({'id': name, 'tag': 'tag%d' % v, 'v': v})
+    # two instances of another logical event that share a version and differ
+    recs.append({'id': 'z', 'tag': 'keep', 'v': 5})
+    recs.append({'id': 'z', 'tag': 'offender', 'v': 5})
+    rng.shuffle(recs)
+    return {'kind': 'harness-conflict', 'records': recs, 'offender': 'offender'}
+
+
 def full_view(e):
     v = gen.event_view(e)
     return {'type': v['type'], 'source': v['source'], 'props': v['props'], 'atts': v['atts'], 'parents': v['parents'], 'foreign': v['foreign']}
@@ -679,6 +736,8 @@ class C17(Property):
             yield gen_lookup_case(rng)
         for _ in range(40 if tier == 'quick' else 800):
             yield gen_harness_case(rng)
+        for _ in range(15 if tier == 'quick' else 300):
+            yield gen_harness_conflict(rng)
         for _ in range(12 if tier == 'quick' else 300):
             # one property that normalization repairs next to one that can only be dropped, both repairs configured
             case = gen_case(rng)
@@ -708,6 +767,8 @@ class C17(Property):
     def observe(self, case):
         if case.get('kind') == 'lookup':
             return run_lookup(case)
+        if case.get('kind') == 'harness-conflict':
+            return run_harness_conflict(case)
         if case.get('kind') == 'harness':
             return run_harness(case)
         return run_case(case)
@@ -743,6 +804,8 @@ class C17(Property):
         return ops, decided
 
     def requests(self, case):
+        if case.get('kind') == 'harness-conflict':
+            return []
         if case.get('kind') == 'lookup':
             return [{'op': 'lookup', 'record': [[k, v] for k, v in case['record'].items()],
                      'map': [{'selector': e['selector'], 'props': e['props'], 'empty': [''] + list(e['empty'])} for e in case['map']]}]
@@ -757,6 +820,8 @@ class C17(Property):
         return [req]
 
     def predict(self, case, replies):
+        if case.get('kind') == 'harness-conflict':
+            return 'undecided'
         if case.get('kind') == 'lookup':
             props = {}
             for p, vs in replies[0]['props']:
@@ -816,6 +881,25 @@ class C17(Property):
         return out
 
     def oracle(self, case, obs):
+        if case.get('kind') == 'harness-conflict':
+            if 'error' in obs:
+                return 'transcoder test harness: %s' % obs['error']
+            if obs['first'] != 'conflict':
+                return 'two instances of one event version that differ: close() of the test harness reported no merge conflict'
+            if obs['second'] != 'accepted':
+                return 'after the offending instance was removed, close() of the test harness %s' % obs['second']
+            want = {}
+            for r in case['records']:
+                if r['tag'] == case['offender']:
+                    continue
+                g = want.setdefault(r['id'], {'tags': set(), 'v': 0})
+                g['tags'].add(r['tag'])
+                g['v'] = max(g['v'], r['v'])
+            expect = sorted([k, sorted(g['tags']), [str(g['v'])]] for k, g in want.items())
+            if obs['events'] != expect:
+                return ('after the refused close() and the repair, the test harness holds %s; merging the remaining instances gives %s'
+                        % (json.dumps(obs['events']), json.dumps(expect)))
+            return None
         if case.get('kind') == 'lookup':
             if obs['outcome'] != 'ok':
                 return 'ObjectTranscoder.generate: %s for the record %s' % (obs['outcome'], json.dumps(case['record'], ensure_ascii=False)[:300])
@@ -907,6 +991,8 @@ class C17(Property):
         return None
 
     def neighbours(self, case, rng):
+        if case.get('kind') == 'harness-conflict':
+            return []
         if case.get('kind') == 'lookup':
             return [gen_lookup_case(rng) for _ in range(40)]
         if case.get('kind') == 'harness':
@@ -914,6 +1000,8 @@ class C17(Property):
         return [gen_case(rng) for _ in range(30)]
 
     def reductions(self, case):
+        if case.get('kind') == 'harness-conflict':
+            return
         if case.get('kind') == 'lookup':
             for i in range(len(case['map'])):
                 if len(case['map']) > 1:
@@ -931,6 +1019,8 @@ class C17(Property):
                 yield dict(case, ops=ops[:i] + ops[i + 1:])
 
     def nontrivial_obs(self, case, obs):
+        if case.get('kind') == 'harness-conflict':
+            return json.dumps(case, sort_keys=True)
         if case.get('kind') == 'lookup':
             return json.dumps(case, sort_keys=True) if isinstance(obs, dict) and obs.get('props') else None
         if case.get('kind') == 'harness':
@@ -943,7 +1033,7 @@ class C17(Property):
         return json.dumps(case, sort_keys=True, default=str) if rejected else None
 
     def sample_view(self, case):
-        if case.get('kind') in ('harness', 'lookup'):
+        if case.get('kind') in ('harness', 'lookup', 'harness-conflict'):
             return case
         return {'calls': [op[0] for op in case['ops']], 'ignore_invalid': case['ignore_invalid'], 'fallback': case['fallback']}
 
